@@ -75,7 +75,7 @@ def _launch(rng, depth=0):
     base = rng.randrange(1, 1 << 20) << 12
     for _ in range(rng.pick([0, 1, 2, 3, 5, 8])):
         addr = base + rng.pick([0, 0, 0x1000, 0x2000, 0x3000, 1, rng.randrange(0, 1 << 20)])
-        m_ = worlds.op_imap(rng, rng.randbytes(16).hex(), addr, shared=rng.chance(0.35))
+        m_ = worlds.op_imap(rng, worlds.draw_uuid(rng), addr, shared=rng.chance(0.35))
         m_['q'] = rng.pick([0, 0, 0, 3])          # NONE- or ALL-qualified: either way a nested single record
         inner.append(m_)
         if rng.chance(0.15):
@@ -91,7 +91,7 @@ def _launch(rng, depth=0):
         scope = rng.word()
         inner.insert(rng.randrange(len(inner) + 1),
                      {'k': 'sys', 'name': rng.pick(['DBG_DYLD_TIMING_DLOPEN', 'DBG_DYLD_TIMING_DLCLOSE', 'DBG_DYLD_TIMING_DLADDR']), 's': [scope, 0, 0, 0], 'e': [scope, 1, 0, 0],
-                      'in': [worlds.op_imap(rng, rng.randbytes(16).hex(), base + rng.randrange(0, 1 << 16), shared=rng.chance(0.3))]})
+                      'in': [worlds.op_imap(rng, worlds.draw_uuid(rng), base + rng.randrange(0, 1 << 16), shared=rng.chance(0.3))]})
     return {'k': 'sys', 'name': 'DBG_DYLD_TIMING_LAUNCH_EXECUTABLE', 's': [rng.word(), rng.word(), 0, 0], 'e': rng.words(), 'in': inner}
 
 
